@@ -80,8 +80,9 @@ func seqProfile(prop string, cas int, tier string) Profile {
 		p.DiskBlocks = 12000
 		p.PDead, p.PWrongKind, p.PBadName = 4, 8, 15
 		p.ManyObjs = 130
+		p.HotSet = 5
 		p.TwinEvery = 20
-		p.FsckEvery = 10
+		p.FsckEvery = 2
 		p.NearFull = cas%3 == 2
 		if p.NearFull {
 			p.DiskBlocks = 2600
